@@ -43,15 +43,28 @@ class HarnessError(Exception):
     pass
 
 
+_lock_depth = [0]
+
+
 @contextlib.contextmanager
 def lake_lock():
-    """Serialise everything that reads or writes lean/.lake or lean/GIVerif/Gen."""
-    path = os.path.join(LEAN_DIR, '.giverif.lock')
-    with open(path, 'w') as f:
-        fcntl.flock(f, fcntl.LOCK_EX)
+    """Serialise everything that reads or writes lean/.lake or lean/GIVerif/Gen
+    (re-entrant within one process)."""
+    if _lock_depth[0] > 0:
+        _lock_depth[0] += 1
         try:
             yield
         finally:
+            _lock_depth[0] -= 1
+        return
+    path = os.path.join(LEAN_DIR, '.giverif.lock')
+    with open(path, 'w') as f:
+        fcntl.flock(f, fcntl.LOCK_EX)
+        _lock_depth[0] = 1
+        try:
+            yield
+        finally:
+            _lock_depth[0] = 0
             fcntl.flock(f, fcntl.LOCK_UN)
 
 
@@ -254,6 +267,18 @@ class Ctx(object):
                                  and all(a in ALLOWED_AXIOMS for a in res['theorems'][ns + nm])]) \
             if res['build_ok'] and not res['forbidden'] else 0
         self.proof = res
+        return res
+
+    def prove(self, translators, modules, props_module):
+        """Regenerate the tables from /repo, rebuild and audit the proofs, all in one critical
+        section (so that a concurrent check of another tree cannot swap the tables in between).
+        In the thorough tier the compiled modules are also re-checked with leanchecker."""
+        with lake_lock():
+            tr = self.run_translators(translators)
+            res = self.build_and_audit(modules, props_module)
+            if self.tier == 'thorough' and res['build_ok']:
+                self.leanchecker(modules)
+        self.coverage['translators'] = tr
         return res
 
     def leanchecker(self, modules):
